@@ -95,6 +95,12 @@ def gen_case(rng, i, tier):
                 for a in axn:
                     if a not in call["to"]:
                         call["to"][a] = rng.choice(list(cm[a]))
+    if isinstance(call.get("to"), dict) and rng.random() < 0.2:
+        # an entry may be None: "not specified" for that axis, so its default shift applies
+        for a in opax:
+            shifts = (ctor.get("default_shifts") or {}).get(a)
+            if rng.random() < 0.5 and stencil.default_to(pos[a], list(cm[a]), shifts) == to[a]:
+                call["to"][a] = None
     if rng.random() < 0.3:
         call["keep_coords"] = rng.random() < 0.5
     b = gen.random_spelling(rng, axn, gen.RULES, p_none=0.35)
